@@ -35,6 +35,11 @@ type Conn struct {
 	// a Write are appended; returning an error fails the write.  It may block
 	// to hold the writer inside Write.
 	BeforeWrite func(n int, p []byte) error
+	// AfterWrite runs once the bytes of Write number n have been handed on (the
+	// peer sees them); a non-nil result is returned by that Write together with
+	// the full length.  It is called with the lock held and must not call Conn
+	// methods.
+	AfterWrite func(n int, p []byte) error
 	// BeforeRead, when set, is called (without the lock) at entry of each Read
 	// with the index of the operation; returning an error fails the read.
 	BeforeRead func(n int) error
@@ -252,6 +257,12 @@ func (c *Conn) Write(p []byte) (int, error) {
 	c.out = append(c.out, p...)
 	c.writeEnd = append(c.writeEnd, len(c.out))
 	c.cond.Broadcast()
+	if aw := c.AfterWrite; aw != nil {
+		// a transport that hands the bytes on and reports a failure all the same
+		if err := aw(n, p); err != nil {
+			return len(p), err
+		}
+	}
 	return len(p), nil
 }
 
